@@ -100,6 +100,13 @@ func (p Proof) Prove(key string) error {
 				continue
 			}
 
+			// NOTE at the first level the children belong to the node of the
+			// key; a match of the other node of the pair proves nothing about
+			// the key.
+			if i == 0 && parents[j].Key() != key {
+				continue
+			}
+
 			switch h, err := nodeHash(parents[j], nodes[bi], nodes[bi+1]); {
 			case err != nil:
 				return e.Wrap(err)
